@@ -41,7 +41,8 @@ def nf(e, fn, d=0):
     k = e[0]
     N = lambda x: nf(x, fn, d + 1)
     if k == 'arg':
-        return 'arg%d' % e[1]
+        # by type, not by position: moving code between a closure and its creator, or adding a parameter, renumbers arguments
+        return 'arg:' + re.sub(r"'\\w+ ?", '', fn.local_ty(e[1]))[:40]
     if k == 'var':
         return 'var:' + re.sub(r"'\w+ ?", '', fn.local_ty(e[1]))[:40]
     if k == 'int':
